@@ -4,7 +4,8 @@ Monitor: the real Cluster / ControlConnection / Session / pools run in the deter
 The control node serves scripted snapshots of system.local and system.peers_v2 (or legacy
 system.peers) - valid rows, rows with a missing address / host_id / data_center / rack /
 tokens, several rows for one endpoint, a peers row carrying the control node's own endpoint,
-one host_id on two endpoints, hosts appearing / vanishing, dc / rack / token changes.  After
+one host_id on two endpoints, hosts appearing / vanishing, dc / rack / token changes, a host
+replaced by a new endpoint that keeps its tokens, hosts swapping tokens.  After
 every refresh (called from the application thread or provoked by a pushed event) the world is
 settled and the cluster metadata, the recorded HostStateListener and load-balancing-policy
 notifications and the token map are compared with a 10-line reference reading of the snapshot.
@@ -19,7 +20,8 @@ LEVEL_TEXT = ("Thousands (quick) to tens of thousands (thorough) of seeded seque
               "(peers_v2 and legacy peers, protocol v3/v4): after each refresh all_hosts() == control node + valid distinct rows, dc/rack/host_id "
               "mirrored, listener on_add / on_remove exactly once per appearance / vanish, the policy told down(old location) then up(new location) "
               "and its live set equal to the membership, token ownership equal to the snapshot whenever membership or tokens changed, replicas "
-              "of a SimpleStrategy keyspace equal to spec/placement.py on that ring. Held-on-observed sequences.")
+              "of a SimpleStrategy and of a NetworkTopologyStrategy keyspace equal to a fresh spec/placement.py placement on that snapshot (incl. steps where the "
+              "ring positions stay and only owners or dc/rack change), owners and replicas being Host objects of all_hosts(). Held-on-observed sequences.")
 LEVEL_NOTE = ("Trusted base: sim/world.py, sim/node.py, spec/frames.py + spec/cqlcodec.py (row encoding), spec/placement.py. Peers are identified "
               "by endpoint as the driver does (a node changing its address is out of the statement). Every advertised peer address has a "
               "connectable SimNode so that pools open and on_add is reachable. Token-map judgement is made on TokenMap.token_to_host_owner.")
@@ -83,9 +85,29 @@ class Gen(object):
 
     def step(self):
         rng = self.rng
-        kind = rng.choice(['tokens', 'tokens', 'membership', 'membership', 'location', 'mixed', 'mixed', 'none'])
+        kind = rng.choice(['tokens', 'tokens', 'membership', 'membership', 'location', 'mixed', 'mixed', 'none', 'replace', 'swap'])
         present = sorted(self.truth)
         absent = [a for a in PEERS if a not in self.truth]
+        if kind == 'replace' and not (present and absent):
+            kind = 'swap'
+        if kind == 'swap' and not present:
+            kind = 'tokens'
+        if kind == 'replace':
+            # a node is replaced within one snapshot: it vanishes and a new endpoint carries its tokens
+            old, new = rng.choice(present), rng.choice(absent)
+            gone = self.truth.pop(old)
+            self.appear(new)
+            self.truth[new]['tokens'] = gone['tokens']
+            if rng.random() < 0.5:
+                self.truth[new]['dc'], self.truth[new]['rack'] = gone['dc'], gone['rack']
+        if kind == 'swap':
+            # two hosts exchange tokens (all of them, or one each): the set of ring positions stays what it was
+            owners = [self.truth[a] for a in present] + [self.local]
+            x, y = rng.sample(owners, 2)
+            if rng.random() < 0.5:
+                x['tokens'], y['tokens'] = y['tokens'], x['tokens']
+            else:
+                x['tokens'], y['tokens'] = [y['tokens'][0]] + x['tokens'][1:], [x['tokens'][0]] + y['tokens'][1:]
         if kind in ('tokens', 'mixed'):
             for a in present:
                 if rng.random() < (0.5 if kind == 'tokens' else 0.25):
@@ -112,14 +134,14 @@ class Gen(object):
                     self.appear(a)
         return kind
 
-    def render(self):
+    def render(self, quiet=False):
         """rows of the peers table for the current truth plus noise rows"""
         rng = self.rng
         rows = [dict(addr=a, kind='valid', **dict((k, (list(v) if isinstance(v, list) else v)) for k, v in t.items()))
                 for a, t in self.truth.items()]
         rng.shuffle(rows)
         noise = []
-        n_noise = rng.choice([0, 0, 1, 1, 2, 3])
+        n_noise = 0 if quiet else rng.choice([0, 0, 1, 1, 2, 3])
         for _ in range(n_noise):
             r = rng.random()
             base = {'addr': rng.choice(PEERS + [GHOST]), 'host_id': self.hid(), 'dc': rng.choice(DCS), 'rack': rng.choice(RACKS),
@@ -258,7 +280,8 @@ def run_history(seed):
     viol = []
     stats = {'steps': 0, 'invalid_rows': 0, 'dup_rows': 0, 'appeared': 0, 'vanished': 0, 'loc_changes': 0, 'token_only_steps': 0,
              'token_maps_compared': 0, 'replica_checks': 0, 'event_triggers': 0, 'stale_carryover': 0, 'no_change_steps': 0,
-             'token_change_steps': 0, 'hosts_compared': 0, 'forced': 0}
+             'token_change_steps': 0, 'hosts_compared': 0, 'forced': 0, 'same_ring_other_owners': 0, 'same_ring_replaced_host': 0,
+             'same_ownership_location_changed': 0, 'nts_replica_checks': 0}
     steps_log = []
     with env:
         lbp, lis = RecPolicy(), RecListener()
@@ -268,12 +291,14 @@ def run_history(seed):
         cluster.register_listener(lis)
         cluster.connect()
         cluster.metadata.keyspaces['ks42'] = KeyspaceMetadata('ks42', True, 'SimpleStrategy', {'replication_factor': '2'})
+        NTS_RF = {'dc1': 2, 'dc2': 1, 'dc3': 2}
+        cluster.metadata.keyspaces['nts42'] = KeyspaceMetadata('nts42', True, 'NetworkTopologyStrategy', dict((d, str(n)) for d, n in NTS_RF.items()))
         env.world.settle()
         prev_exp, prev_obs_tm = {}, None
         for k in range(nsteps):
             if k > 0:
                 kind = gen.step()
-                cur['snap'] = gen.render()
+                cur['snap'] = gen.render(quiet=kind in ('replace', 'swap', 'location') and rng.random() < 0.6)
                 lbp.rec, lis.rec = [], []
                 served0 = cur['served']
                 trig = rng.choice(['refresh_nodes', 'refresh_nodes', 'refresh_nodes-forced', 'control', 'event-topology', 'event-status'])
@@ -375,6 +400,13 @@ def run_history(seed):
                     stats['no_change_steps'] += 1
                 if not membership_changed and tokens_changed:
                     stats['token_only_steps'] += 1
+                same_ring = prev_exp and sorted(exp_tm) == sorted(ownership(prev_exp))
+                if same_ring and exp_tm != ownership(prev_exp):
+                    stats['same_ring_other_owners'] += 1
+                    if membership_changed:
+                        stats['same_ring_replaced_host'] += 1
+                if same_ring and exp_tm == ownership(prev_exp) and any(prev_exp[a][1:3] != exp[a][1:3] for a in exp if a in prev_exp):
+                    stats['same_ownership_location_changed'] += 1
                 wit_tm = dict(wit, token_map=sorted(obs_tm.items()) if obs_tm is not None else None, expected=sorted(exp_tm.items()))
                 if obs_tm != exp_tm:
                     if trig == 'refresh_nodes-forced':
@@ -392,13 +424,29 @@ def run_history(seed):
                 elif obs == set(exp):
                     # 6. replicas on the rebuilt ring
                     ring = sorted(exp_tm.items())
+                    locations = dict((a, v[1:3]) for a, v in exp.items())
+                    for t, h in tm.token_to_host_owner.items():
+                        if hosts.get(h.endpoint.address) is not h:
+                            viol.append(('token-owner-is-not-a-current-member', 'token %d is owned by a Host object that is not the one in all_hosts()' % t.value, wit_tm))
+                            break
                     for _ in range(3):
                         tv = rng.choice([rng.randint(-4100, 4100), ring[rng.randrange(len(ring))][0]])
-                        got = [h.endpoint.address for h in tm.get_replicas('ks42', Murmur3Token(tv))]
+                        reps = tm.get_replicas('ks42', Murmur3Token(tv))
+                        got = [h.endpoint.address for h in reps]
                         want = placement.simple_strategy(ring, 2, tv)
                         stats['replica_checks'] += 1
                         if got != want:
                             viol.append(('replicas-differ-on-rebuilt-ring', 'token %d: replicas %r, reference %r' % (tv, got, want), wit_tm))
+                        # NetworkTopologyStrategy depends on dc / rack as well: a fresh placement on this snapshot (set comparison, no repeats)
+                        nreps = tm.get_replicas('nts42', Murmur3Token(tv))
+                        ngot = sorted(h.endpoint.address for h in nreps)
+                        nwant = sorted(placement.network_topology(ring, locations, NTS_RF, tv)[0])
+                        stats['nts_replica_checks'] += 1
+                        if ngot != nwant:
+                            viol.append(('nts-replicas-differ-from-fresh-placement', 'token %d: NetworkTopologyStrategy %r replicas %r, fresh placement on the snapshot %r' % (
+                                tv, NTS_RF, ngot, nwant), dict(wit_tm, locations=locations)))
+                        if any(hosts.get(h.endpoint.address) is not h for h in list(reps) + list(nreps)):
+                            viol.append(('replica-is-not-a-current-member', 'token %d: a returned replica is not a Host of all_hosts()' % tv, wit_tm))
                 prev_obs_tm = obs_tm
             prev_exp = exp
             steps_log.append((kind, trig, canon(snap)))
@@ -449,7 +497,9 @@ def run(ctx):
                      ("steps_with_token_change_only", 'token_only_steps'), ("steps_with_token_change", 'token_change_steps'),
                      ("steps_without_change", 'no_change_steps'), ("token_maps_compared", 'token_maps_compared'),
                      ("replica_lookups_compared", 'replica_checks'), ("refreshes_provoked_by_pushed_event", 'event_triggers'),
-                     ("stale_token_map_carried_over_unchanged_step", 'stale_carryover'), ("host_records_compared", 'hosts_compared'), ("forced_rebuilds", 'forced')):
+                     ("stale_token_map_carried_over_unchanged_step", 'stale_carryover'), ("host_records_compared", 'hosts_compared'), ("forced_rebuilds", 'forced'),
+                     ("steps_same_ring_positions_other_owners", 'same_ring_other_owners'), ("steps_host_replaced_keeping_its_tokens", 'same_ring_replaced_host'),
+                     ("steps_same_ownership_location_changed", 'same_ownership_location_changed'), ("nts_replica_lookups_compared", 'nts_replica_checks')):
             ctx.count(k, stats[v])
         if info['peers_v2']:
             ctx.count("histories_peers_v2")
@@ -468,4 +518,5 @@ def run(ctx):
     ctx.floor_counters = {"histories": 300, "refreshes_checked": 1000, "invalid_rows_served": 200, "duplicate_endpoint_rows_served": 100,
                           "hosts_appeared": 300, "hosts_vanished": 100, "location_changes": 100, "steps_with_token_change_only": 50,
                           "token_maps_compared": 1000, "replica_lookups_compared": 1000, "refreshes_provoked_by_pushed_event": 50,
-                          "histories_peers_v2": 50, "histories_legacy_peers": 50}
+                          "histories_peers_v2": 50, "histories_legacy_peers": 50, "steps_same_ring_positions_other_owners": 60,
+                          "steps_host_replaced_keeping_its_tokens": 20, "steps_same_ownership_location_changed": 40, "nts_replica_lookups_compared": 1000}
